@@ -366,7 +366,7 @@ PROPS = {
                    "any script: no underflow in the HTTP reader). Tied to the code by structure-aware mutation under a recomputed checksum "
                    "through the library (catch_unwind; open + banner arithmetic + index + bounded seed scan) and through the CLI (info / clone "
                    "/ clone --seed / clone --seed-output under a watchdog; exit 101/134/hang = violation), random bytes, bit flips, truncations, "
-                   "declared sizes up to 2^64, misbehaving servers. Session 4: accepted_archive_chunker_allocation_bounded, accepted_archive_scan_buffer_bounded (buffer model SC.caps of the streaming chunker), decompression_buffer_never_exceeds_declared_size / decompression_exact_or_error (LimitedOutput as a sink, any writes).",
+                   "declared sizes up to 2^64, misbehaving servers. Session 4: accepted_archive_chunker_allocation_bounded, accepted_archive_scan_buffer_bounded (buffer model SC.caps of the streaming chunker), decompression_buffer_never_exceeds_declared_size / decompression_exact_or_error (LimitedOutput as a sink, any writes). Session 5: dictionary_fields_bounded_by_bytes / unknown_group_skip_progresses (prost reader model: every field consumes at least its key byte, a skipped unknown group is left strictly behind, for ANY bytes) and dictionary_decode_fuel_irrelevant / unknown_group_skip_fuel_irrelevant (the fuel of the model never causes a refusal); l1 fmt now crafts groups nested around prost's recursion limit (1..150), groups closed by another field's end key, groups holding every wire type, truncated.",
         level_note="Panic-freedom OF THE MODEL; which operations can panic is the modeller's reading of the code, so the generators are the "
                    "important half. Partial w.r.t. memory exhaustion and anything inside prost/brotli/reqwest. Accepted RollSum configs with "
                    "window > max are outside Config.Valid (covered by the correspondence only). HttpReader::read_at buffers whatever body a "
@@ -376,7 +376,7 @@ PROPS = {
         module="Bita.Props.C15",
         level="proof",
         needs_bita=True,
-        required_theorems=["tryInit_total", "accepted_archive_is_safe", "scan_is_bounded", "accepted_iff_valid", "accepted_archive_scan_is_bounded", "server_bytes_safe", "remote_open_total", "local_open_total", "local_header_read_allocation_bounded", "remote_header_read_buffering_bounded", "decoded_chunk_follows_declared_sizes", "accepted_archive_ranges_fit_u64", "remote_reader_sums_are_chunk_ends", "decoded_chunk_has_declared_size", "accepted_archive_chunker_allocation_bounded", "accepted_archive_scan_buffer_bounded", "chunker_wants_data_only_below_max", "decompression_buffer_never_exceeds_declared_size", "decompression_exact_or_error", "limited_decomp_is_the_sink"],
+        required_theorems=["tryInit_total", "accepted_archive_is_safe", "scan_is_bounded", "accepted_iff_valid", "accepted_archive_scan_is_bounded", "server_bytes_safe", "remote_open_total", "local_open_total", "local_header_read_allocation_bounded", "remote_header_read_buffering_bounded", "decoded_chunk_follows_declared_sizes", "accepted_archive_ranges_fit_u64", "remote_reader_sums_are_chunk_ends", "decoded_chunk_has_declared_size", "accepted_archive_chunker_allocation_bounded", "accepted_archive_scan_buffer_bounded", "chunker_wants_data_only_below_max", "decompression_buffer_never_exceeds_declared_size", "decompression_exact_or_error", "limited_decomp_is_the_sink", "dictionary_fields_bounded_by_bytes", "unknown_group_skip_progresses", "dictionary_decode_fuel_irrelevant", "unknown_group_skip_fuel_irrelevant"],
         suites=dict(quick=[("l1", "fmt"), ("py", "c15_cli"), ("l1", "c08-http"), ("l1", "c08-io")], thorough=[("l1", "fmt"), ("py", "c15_cli"), ("l1", "c08-http"), ("l1", "c08-io")]),
         rule="library: random/wild dictionaries under header::build, wire-level crafted dictionaries and declared-size/offset lies under a "
              "recomputed checksum, bit flips, truncations, random bytes; CLI: 22 field mutations x 4 commands + 13 server scripts; "
@@ -420,7 +420,7 @@ PROPS = {
         module="Bita.Props.C17",
         level="proof",
         needs_bita=True,
-        required_theorems=["conforming_archive_clones", "conforming_archive_clones_over_http", "conforming_archive_clones_through_io_reader", "cli_conforming_archive_clones", "conforming_archive_reports", "readers_exact_on_any_layout", "clone_steps_as_modelled"],
+        required_theorems=["conforming_archive_clones", "conforming_archive_clones_over_http", "conforming_archive_clones_through_io_reader", "cli_conforming_archive_clones", "conforming_archive_reports", "readers_exact_on_any_layout", "clone_steps_as_modelled", "unknown_dictionary_fields_are_ignored", "dictionary_decode_fuel_irrelevant"],
         suites=dict(quick=[("py", "c17_conforming")], thorough=[("py", "c17_conforming")]),
         rule="random sources cut arbitrarily (any cut is format-conforming), random valid parameters, independent encoder with random "
              "freedoms; oracle: CLI clone (local, HTTP, with seed) == source, info lines == encoder inputs; model: clone result/output",
